@@ -68,6 +68,10 @@ def c07():
                         other = " -" if leg not in (None, "", "0") else (" 1" if (ci + L) % 8 else " yes")
                     cmds.append(enc_cmd(be, k, m, hd, ct, L, _seed_of(chk, L + ci * 1000), 1) + other)
             if li == 0:
+                # checksum-type values other than none / CRC32 that create accepts: type byte as given, checksum words zero
+                for ct_ in (3, 0):
+                    for L in (1, 2 * a + 3):
+                        cmds.append(enc_cmd(be, k, m, hd, ct_, L, _seed_of(chk, L + ci * 1000 + ct_), 1))
                 for wi, w_ in enumerate(OTHER_W.get(be, [])):
                     for L in (1, a + 1, 3 * a + 7, 100 + ci):
                         cmds.append(enc_cmd(be, k, m, hd, 1 + (wi + L) % 2, L, _seed_of(chk, L + ci * 1000 + wi), 1, w=w_))
@@ -195,8 +199,16 @@ def c09():
 
 def c10():
     def extra(chk, thorough):
-        return ["crcalt %d 300 %d" % (2000 if thorough else 400, _seed_of(chk, 5))]
-    chk, v, files, rule = _hdr_check("C10", 64 | 16 | 32, ["C10", "C11 opposite-endian payload mismatch", "C11 opposite-endian checksum type"],
+        cmds = ["crcalt %d 300 %d" % (2000 if thorough else 400, _seed_of(chk, 5))]
+        # "fragment validation then rejects the fragment": a reported mismatch (flag set in the metadata the caller
+        # hands to stripe verification) must make the stripe fail wherever that fragment sits in the list
+        cfgs = wire_configs(thorough)
+        for i, (be, k, m, hd) in enumerate(cfgs[:6 if not thorough else 12]):
+            cmds.append("cross %d %d %d %d %d %d %d %d %d %d %d %d %d %d" % (
+                be, k, m, hd, WORD[be], 2, be, k, m, hd, WORD[be], 2, 40 + i, _seed_of(chk, 60 + i)))
+        return cmds
+    chk, v, files, rule = _hdr_check("C10", 64 | 16 | 32, ["C10", "C11 opposite-endian payload mismatch", "C11 opposite-endian checksum type",
+                                                            "C12 stripe metadata verification verdict"],
                                      40, 200, "", extra_cmds=extra, lens=[13, 60, 0, 100, 3])
     thorough = chk.tier == "thorough"
     # the historical CRC against its bitwise definition on the production configuration too (implementation-defined shifts)
@@ -228,7 +240,7 @@ def c10():
 
 
 def c11():
-    chk, v, files, rule = _hdr_check("C11", 32 | 8, ["C11", "C09 metadata query", "C09 header predicate"], 10, 40, "")
+    chk, v, files, rule = _hdr_check("C11", 32 | 8, ["C11", "C09 metadata query", "C09 header predicate", "C09 validation modified"], 10, 40, "")
     return _finish_codes(chk,
         "for fragments of every wire configuration: the field-wise byte-swapped twin (as an opposite-endian writer stores it, "
         "re-sealed with the swapped metadata CRC, standard or historical) with and without payload damage, and the version-gate "
@@ -274,9 +286,16 @@ def c20():
     for (be, k, m, hd) in big:
         i += 1
         cmds.append("sweep_force %d %d %d %d %d 2 %d %d %d" % (be, k, m, hd, WORD[be], 100 + i, _seed_of(chk, i), 6000 if thorough else 1200))
+    # stripes written under one meaning of the legacy-CRC switch and read under the other (run below under both values)
+    tcmds = ["sweep_force %d %d %d %d %d 2 %d %d %d toggle" % (be, k, m, hd, WORD[be], 50 + j, _seed_of(chk, 300 + j), 400)
+             for j, (be, k, m, hd) in enumerate([(BE_RS, 4, 2, 2), (BE_XOR, 5, 5, 3), (BE_RS, 3, 3, 3), (BE_XOR, 6, 6, 4)])]
     files, events, restarts = run_sweeps("asan", cmds, "C20")
     v = validate("TraceCodes", files)
     _collect(chk, v, ["C20", "fault", "create failed", "encode failed"])
+    for envv, nm in (({}, "a"), ({"LIBERASURECODE_WRITE_LEGACY_CRC": "1"}, "b")):
+        ft, et, rt = run_sweeps("asan", tcmds, "C20-toggle" + nm, env=envv)
+        vt = validate("TraceCodes", ft)
+        _collect(chk, vt, ["C20", "fault", "create failed", "encode failed"])
     c = v.counts or [0] * 12
     chk.cov["distinct_nontrivial"] = c[1]
     chk.parts.update({"forced_decode_events": c[1], "refused": c[4]})
